@@ -129,7 +129,7 @@ func runC05(r *core.Run) {
 	streams := readerStreams(level)
 	if thorough(r) {
 		for _, e := range bindRef(nil) {
-			if len(e.Data) > 1500 || len(e.Data) == 0 {
+			if len(e.Data) > 20000 || len(e.Data) == 0 {
 				continue
 			}
 			f := "xz"
